@@ -59,11 +59,89 @@ pub struct ChoicePoint {
     pub chosen: u16,
     /// cost kind of each alternative (index 0 is free whatever it says)
     pub kinds: Vec<Cost>,
+    /// partial-order mode only: identity of each alternative (scheduler steps) ...
+    pub ids: Vec<u16>,
+    /// ... and the sleep set in force at this point
+    pub sleep: Vec<u16>,
 }
 
 struct RunCtx {
     prefix: Vec<u16>,
     trace: Vec<ChoicePoint>,
+    /// partial-order (sleep set) mode
+    por: bool,
+    /// sleep set to install when the replayed prefix ends
+    sleep_at_prefix_end: Vec<u16>,
+    sleep: Vec<u16>,
+    /// every enabled step was asleep: this path is covered elsewhere
+    blocked: bool,
+}
+
+/// Step identity for the sleep-set mode: bits 12.. = side (0 = endpoint A, 1 = endpoint B, 2 = touches both),
+/// bits 0..12 = the step within the scheduler's numbering.
+pub fn step_id(side: u8, raw: u16) -> u16 {
+    (u16::from(side.min(2)) << 12) | (raw & 0x0fff)
+}
+
+/// Two scheduler steps commute iff they belong to different endpoints (with an unbounded link an
+/// endpoint's steps only append to the tail of the queue the other side's delivery step pops the head of).
+fn independent(a: u16, b: u16) -> bool {
+    let (sa, sb) = (a >> 12, b >> 12);
+    sa != sb && sa < 2 && sb < 2
+}
+
+/// Scheduler choice in partial-order mode: picks the first enabled step that is not asleep.
+/// Returns `None` when all enabled steps are asleep (the execution stops here: everything reachable
+/// from this state is explored on another path). Outside partial-order mode it is `choose_n`.
+pub fn choose_step(ids: &[u16]) -> Option<usize> {
+    let n = ids.len();
+    assert!(n >= 1);
+    let por = CTX.with(|c| c.borrow().as_ref().is_some_and(|c| c.por));
+    if !por {
+        return Some(choose_n(n, Cost::Sched));
+    }
+    CTX.with(|c| {
+        let mut c = c.borrow_mut();
+        let ctx = c.as_mut().expect("ctx");
+        let pos = ctx.trace.len();
+        if pos == ctx.prefix.len() && !ctx.sleep_at_prefix_end.is_empty() {
+            ctx.sleep = std::mem::take(&mut ctx.sleep_at_prefix_end);
+        }
+        if n == 1 {
+            // no alternative: not a choice point (same numbering as the plain mode)
+            if pos >= ctx.prefix.len() && ctx.sleep.contains(&ids[0]) {
+                ctx.blocked = true;
+                return None;
+            }
+            let e = ids[0];
+            ctx.sleep.retain(|z| independent(*z, e));
+            return Some(0);
+        }
+        let chosen = if pos < ctx.prefix.len() {
+            let ch = usize::from(ctx.prefix[pos]);
+            if ch >= n {
+                std::panic::panic_any(Divergence(format!("replay divergence at choice {pos}: prefix wants alternative {ch} of {n}")));
+            }
+            ch
+        } else {
+            match (0..n).find(|j| !ctx.sleep.contains(&ids[*j])) {
+                Some(j) => j,
+                None => {
+                    ctx.blocked = true;
+                    return None;
+                }
+            }
+        };
+        ctx.trace.push(ChoicePoint { chosen: chosen as u16, kinds: vec![Cost::Sched; n], ids: ids.to_vec(), sleep: ctx.sleep.clone() });
+        let e = ids[chosen];
+        ctx.sleep.retain(|z| independent(*z, e));
+        Some(chosen)
+    })
+}
+
+/// Was the current execution cut short because every enabled step was asleep?
+pub fn blocked() -> bool {
+    CTX.with(|c| c.borrow().as_ref().is_some_and(|c| c.blocked))
 }
 
 thread_local! {
@@ -101,9 +179,18 @@ pub fn choose(kinds: &[Cost]) -> usize {
         } else {
             0
         };
+        if ctx.por {
+            // a non-scheduling choice (environment answer, fault) depends on everything
+            if pos == ctx.prefix.len() {
+                ctx.sleep = std::mem::take(&mut ctx.sleep_at_prefix_end);
+            }
+            ctx.sleep.clear();
+        }
         ctx.trace.push(ChoicePoint {
             chosen,
             kinds: kinds.to_vec(),
+            ids: Vec::new(),
+            sleep: Vec::new(),
         });
         usize::from(chosen)
     })
@@ -121,10 +208,20 @@ pub fn choose_n(n: usize, kind: Cost) -> usize {
 
 /// Run `f` under the given choice prefix and return its value with the trace.
 pub fn with_prefix<T>(prefix: &[u16], f: impl FnOnce() -> T) -> (T, Vec<ChoicePoint>) {
+    with_prefix_por(prefix, None, f)
+}
+
+/// As `with_prefix`; `sleep = Some(set)` switches the partial-order (sleep set) mode on, with `set`
+/// installed at the state the prefix leads to.
+pub fn with_prefix_por<T>(prefix: &[u16], sleep: Option<&[u16]>, f: impl FnOnce() -> T) -> (T, Vec<ChoicePoint>) {
     CTX.with(|c| {
         *c.borrow_mut() = Some(RunCtx {
             prefix: prefix.to_vec(),
             trace: Vec::new(),
+            por: sleep.is_some(),
+            sleep_at_prefix_end: sleep.map(<[u16]>::to_vec).unwrap_or_default(),
+            sleep: Vec::new(),
+            blocked: false,
         });
     });
     struct Reset;
@@ -156,6 +253,8 @@ pub struct RunOutput {
     pub horizon: bool,
     /// a human readable rendering of the schedule (only filled on demand)
     pub rendering: Option<String>,
+    /// partial-order mode: the execution was cut because every enabled step was asleep (no end-of-run verdict)
+    pub blocked: bool,
 }
 
 #[derive(Clone, Debug)]
@@ -381,6 +480,142 @@ where
     });
     total.capped = capped.into_inner().unwrap();
     total
+}
+
+/// Complete exploration modulo commutation of independent steps (sleep sets, no bound).
+/// Sleep sets never remove a reachable state: a step is skipped at a state only if the state it
+/// leads to is reached on a sibling path where the same step is taken after steps it commutes with.
+/// `run` must use `choose_step` for scheduling decisions and must not evaluate its end-of-run
+/// oracle when `blocked()` (the caller sees `RunOutput::horizon == false` and `blocked` via the flag).
+pub fn explore_por<F>(limits: Limits, label: &str, run: F) -> (Stats, u64)
+where
+    F: Fn() -> RunOutput + Sync,
+{
+    type Item = (Vec<u16>, Vec<u16>);
+    let global: Mutex<Vec<Item>> = Mutex::new(vec![(Vec::new(), Vec::new())]);
+    let outstanding = AtomicUsize::new(1);
+    let execs = AtomicU64::new(0);
+    let blocked_runs = AtomicU64::new(0);
+    let stop = AtomicBool::new(false);
+    let capped: Mutex<Option<String>> = Mutex::new(None);
+    let threads = limits.threads.max(1);
+    let hungry_below = threads * 4;
+    let worker = || {
+        let mut st = Stats::default();
+        let mut local: Vec<Item> = Vec::new();
+        loop {
+            if stop.load(Ordering::Relaxed) {
+                break;
+            }
+            let (prefix, sleep) = if let Some(p) = local.pop() {
+                p
+            } else {
+                let got = global.lock().unwrap().pop();
+                match got {
+                    Some(p) => p,
+                    None => {
+                        if outstanding.load(Ordering::Acquire) == 0 {
+                            break;
+                        }
+                        std::thread::yield_now();
+                        continue;
+                    }
+                }
+            };
+            let n = execs.fetch_add(1, Ordering::Relaxed);
+            if n >= limits.max_execs {
+                *capped.lock().unwrap() = Some(format!("execution cap {} reached", limits.max_execs));
+                stop.store(true, Ordering::Relaxed);
+                break;
+            }
+            if n % 256 == 0 && Instant::now() >= limits.deadline {
+                *capped.lock().unwrap() = Some("wall-clock cap reached".to_string());
+                stop.store(true, Ordering::Relaxed);
+                break;
+            }
+            vcommon::watchdog::enter(label, &prefix);
+            let (out, trace) = with_prefix_por(&prefix, Some(&sleep), &run);
+            let was_blocked = out.blocked;
+            vcommon::watchdog::leave();
+            if trace.len() < prefix.len() {
+                std::panic::panic_any(Divergence(format!("replay divergence: {} choices made, prefix has {}", trace.len(), prefix.len())));
+            }
+            st.executions += 1;
+            st.transitions += out.steps;
+            st.max_steps = st.max_steps.max(out.steps);
+            st.max_trace_len = st.max_trace_len.max(trace.len());
+            st.states.extend(out.fingerprints.iter().copied());
+            st.witnesses |= out.witnesses;
+            if was_blocked {
+                blocked_runs.fetch_add(1, Ordering::Relaxed);
+            } else {
+                st.outcomes.insert(out.outcome);
+            }
+            if out.horizon {
+                st.horizons += 1;
+            }
+            let full: Vec<u16> = trace.iter().map(|c| c.chosen).collect();
+            if st.samples.len() < 3 && (st.executions == 1 || st.executions % 9973 == 0) && !was_blocked {
+                st.samples.push(full.clone());
+            }
+            for (key, desc) in out.violations {
+                st.add_violation(FoundViolation { key, desc, choices: full.clone(), deviations: 0, count: 1 });
+            }
+            let mut children: Vec<Item> = Vec::new();
+            for i in prefix.len()..trace.len() {
+                let cp = &trace[i];
+                if cp.ids.is_empty() {
+                    // non-scheduling choice: branch over every alternative, empty sleep set
+                    for alt in 1..cp.kinds.len() {
+                        let mut child = full[..i].to_vec();
+                        child.push(alt as u16);
+                        children.push((child, Vec::new()));
+                    }
+                    continue;
+                }
+                let mut explored: Vec<u16> = vec![cp.ids[usize::from(cp.chosen)]];
+                for j in 0..cp.ids.len() {
+                    if j == usize::from(cp.chosen) || cp.sleep.contains(&cp.ids[j]) {
+                        continue;
+                    }
+                    let e = cp.ids[j];
+                    let child_sleep: Vec<u16> = cp.sleep.iter().chain(explored.iter()).copied().filter(|z| independent(*z, e)).collect();
+                    let mut child = full[..i].to_vec();
+                    child.push(j as u16);
+                    children.push((child, child_sleep));
+                    explored.push(e);
+                }
+            }
+            if !children.is_empty() {
+                outstanding.fetch_add(children.len(), Ordering::AcqRel);
+                let mut g = global.lock().unwrap();
+                if g.len() < hungry_below {
+                    let share = children.len().min(hungry_below);
+                    let rest = children.split_off(share);
+                    g.extend(children);
+                    drop(g);
+                    local.extend(rest);
+                } else {
+                    drop(g);
+                    local.extend(children);
+                }
+            }
+            outstanding.fetch_sub(1, Ordering::AcqRel);
+        }
+        st
+    };
+    let mut total = Stats::default();
+    std::thread::scope(|s| {
+        let hs: Vec<_> = (0..threads).map(|_| s.spawn(worker)).collect();
+        for h in hs {
+            match h.join() {
+                Ok(st) => total.merge(st),
+                Err(e) => std::panic::resume_unwind(e),
+            }
+        }
+    });
+    total.capped = capped.into_inner().unwrap();
+    (total, blocked_runs.load(Ordering::Relaxed))
 }
 
 /// Convenience: iterate the scheduling-deviation bound upwards from 0 until
